@@ -199,7 +199,7 @@ var required = []struct{ name, typ string }{
 	// round 2 (skeleton.go)
 	{"sizeFields", "L"}, {"relativePointFields", "L"}, {"subSurfaceFields", "L"},
 	{"runRenderWin", "S"}, {"runRenderClipsRoot", "B"}, {"runFrame", "L"}, {"hookRenderRootWin", "S"}, {"hookRenderWin", "S"},
-	{"renderBody", "L"}, {"drawWidgets", "L"}, {"boundedGuards", "P"}, {"boundedPanicWidgets", "L"}, {"newSurfaceArgs", "P"},
+	{"renderBody", "L"}, {"drawWidgets", "L"}, {"boundedGuards", "P"}, {"boundedPanicWidgets", "L"}, {"newSurfaceArgs", "P"}, {"surfaceSizes", "Z"},
 	{"buttonDrawBody", "L"}, {"centerDrawBody", "L"}, {"richtextDrawBody", "L"}, {"richtextDrawSoftwrapBody", "L"},
 	{"richtextFindContainerSizeBody", "L"}, {"textDrawBody", "L"}, {"textDrawSoftwrapBody", "L"}, {"textFindContainerSizeBody", "L"},
 	{"textfieldDrawBody", "L"}, {"dynamicChildCtx", "L"},
@@ -219,6 +219,11 @@ func gen(c *ex.Ctx) {
 			fmt.Fprintf(&sb, "def %s : List String := [\"?unrecognised\"]\n", r.name)
 		case "S":
 			fmt.Fprintf(&sb, "def %s : String := \"?unrecognised\"\n", r.name)
+		case "Z":
+			if !strings.Contains(sb.String(), "\ninductive SzArg where") {
+				sb.WriteString("inductive SzArg where\n  | maxW | maxH | sizeW | sizeH | childH\n  | lit (n : Nat)\n  | other (src : String)\nderiving DecidableEq, Repr\n")
+			}
+			fmt.Fprintf(&sb, "def %s : List (String × SzArg × SzArg) := []\n", r.name)
 		case "P":
 			fmt.Fprintf(&sb, "def %s : List (String × String) := [(\"?unrecognised\", \"?unrecognised\")]\n", r.name)
 		case "B":
